@@ -8,7 +8,7 @@ func crashProfile(r *Rng, cfg Config) *Profile {
 		"m.set": 18, "m.remove": 9, "m.get": 1, "a.get": 1,
 		"settype": 2, "popall": 1, "reget": 1, "new": 2, "dispose": 1,
 		"a.fill": 2, "m.fill": 2, "a.drain": 2, "m.drain": 2,
-		"commit": 6, "dropcache": 1, "reopen": 2, "crash": 4, "arm": 3, "commit.crashmid": 1,
+		"commit": 6, "dropcache": 1, "reopen": 2, "crash": 4, "arm": 3, "commit.crashmid": 1, "commit.retried": 2,
 	}
 	return &Profile{
 		Name: "crash", W: w, MaxRoots: r.Range(1, 5), Owners: []uint64{1, 0, 2, 0x0102030405060708}[:r.Range(1, 4)],
@@ -31,14 +31,32 @@ func init() {
 		return st, true
 	}
 
+	// a commit whose first attempt(s) fail on a ledger write and which is retried until it succeeds: the
+	// successful attempt is "a successful commit" like any other (what a failed attempt must leave behind is C14's)
+	extraGens["commit.retried"] = func(g *Gen) (Step, bool) {
+		st := g.commitStep("commit")
+		if g.R.Chance(0.5) {
+			st.Flavour = "nfc"
+		}
+		f := &FaultSpec{Attempts: g.R.Range(1, 2)}
+		if g.R.Chance(0.5) {
+			f.WriteAt = []int{g.R.Range(1, 6)}
+		} else {
+			f.WriteIdx = []int{g.R.Intn(64)}
+		}
+		st.Fault = f
+		st.Retries = 3
+		return st, true
+	}
+
 	var lastCommits map[*World]int // world -> number of commits already verified
 	lastCommits = map[*World]int{}
 
 	stdProp(&PropSpec{
 		ID: "C03", Level: "fault_enumeration",
 		Verdict: []string{"recover.", "ledger.monitor", "commit.error", "reopen"},
-		Rule: "mixed array/map/nested histories (incl. temporary-owner containers) with commits at random strides and flavours; after EVERY step the crash point is evaluated: the ledger write monitor must show no register written or deleted since the last commit, and at a stride (every step in thorough) a brand-new storage over a copy of the durable registers must reconstruct exactly the model snapshot of the last successful commit; after every successful commit it must reconstruct the current model; real crashes (abandon, drop-deltas+drop-cache, panic inside the k-th callback of an operation, allocation error, crash in the middle of a commit with ledger rollback) are injected as steps and the history continues on the recovered state. Non-trivial = at least one commit, one real crash and a container of >= 3 slabs; distinct by trace hash",
-		ExpectedReach: []string{"crash.abandon", "crash.drop", "crash.panic-in-callback", "crash.after-ledger-error", "crash.mid-commit-rollback", "crash.enumerated"},
+		Rule: "mixed array/map/nested histories (incl. temporary-owner containers) with commits at random strides and flavours; after EVERY step the crash point is evaluated: the ledger write monitor must show no register written or deleted since the last commit, and at a stride (every step in thorough) a brand-new storage over a copy of the durable registers must reconstruct exactly the model snapshot of the last successful commit; after every successful commit it must reconstruct the current model; real crashes (abandon, drop-deltas+drop-cache, panic inside the k-th callback of an operation, allocation error, crash in the middle of a commit with ledger rollback) are injected as steps, and some commits fail on a ledger write (by position or by register identity) for one or two attempts before the retry succeeds and the history continues on the recovered state. Non-trivial = at least one commit, one real crash and a container of >= 3 slabs; distinct by trace hash",
+		ExpectedReach: []string{"commit.failed-attempt", "crash.abandon", "crash.drop", "crash.panic-in-callback", "crash.after-ledger-error", "crash.mid-commit-rollback", "crash.enumerated"},
 		Directed: []func() *Trace{directedManyChildMaps},
 	}, stdHooks{
 		config: func(r *Rng, tier string) Config {
